@@ -214,6 +214,24 @@ fn listing(root: &std::path::Path) -> Vec<Sx> {
     v.into_iter().map(|s| hex(s.as_bytes())).collect()
 }
 
+/// files this process holds open under `root` (also unlinked ones, shown by /proc as "... (deleted)"), relative to root
+fn open_under(root: &std::path::Path) -> Vec<Sx> {
+    let mut v = Vec::new();
+    if let Ok(rd) = std::fs::read_dir("/proc/self/fd") {
+        for e in rd.flatten() {
+            if let Ok(t) = std::fs::read_link(e.path()) {
+                let t = t.to_string_lossy().into_owned();
+                let t = t.strip_suffix(" (deleted)").unwrap_or(&t).to_string();
+                if let Ok(rel) = std::path::Path::new(&t).strip_prefix(root) {
+                    if !rel.as_os_str().is_empty() { v.push(rel.to_string_lossy().into_owned()); }
+                }
+            }
+        }
+    }
+    v.sort();
+    v.into_iter().map(|s| hex(s.as_bytes())).collect()
+}
+
 /// (tmp (steps ...) n_items exit k drop_order where): one lifetime of a sorter; prints recursive listings of a scratch
 /// root holding `c` (the configured directory, with a file and a sub-directory in it) and `o` (where TMPDIR points when a
 /// directory is configured explicitly).  steps = builder calls in the given order: (dir) (cs n) (threads n) (comp n).
@@ -237,7 +255,8 @@ pub fn run_tmp(args: &[Sx]) -> Sx {
         std::env::set_var("TMPDIR", if wh == "env" { &conf } else { &other });
         let before = listing(root.path());
         let during = RefCell::new(Vec::<Sx>::new());
-        let snap = || during.borrow_mut().push(Sx::L(listing(root.path())));
+        let opens = RefCell::new(Vec::<Sx>::new());
+        let snap = || { during.borrow_mut().push(Sx::L(listing(root.path()))); opens.borrow_mut().push(Sx::L(open_under(root.path()))); };
         let built = RefCell::new(true);
         let r = std::panic::catch_unwind(std::panic::AssertUnwindSafe(|| {
             let mut b = ExternalSorterBuilder::new();
@@ -275,6 +294,7 @@ pub fn run_tmp(args: &[Sx]) -> Sx {
         emit(tag("before", before));
         emit(tag("during", during.into_inner()));
         emit(tag("after", after));
+        emit(tag("opens", opens.into_inner()));
     })
 }
 
